@@ -252,12 +252,25 @@ def worker(args):
                 keys = []
                 for body, _ in cps:
                     if len(body) == 4 and body[0] in RANK_CH and body[2] in RANK_CH and body[1] in SUIT_CH and body[3] in SUIT_CH:
-                        k = (RANK_CH.index(body[0]), RANK_CH.index(body[2]), SUIT_CH.index(body[1]), SUIT_CH.index(body[3]))
-                        if not keys or keys[-1] != k:
-                            keys.append(k)
+                        keys.append((RANK_CH.index(body[0]), SUIT_CH.index(body[1]), RANK_CH.index(body[2]), SUIT_CH.index(body[3])))
                     else:
                         note('order', 'order:unknown-token', P['pc'], txt)
-                if keys != sorted(keys) or len(set(keys)) != len(keys):
+                # the leftovers must appear exactly in the formatter's documented walk over (high rank, kicker rank, suit, suit),
+                # i.e. as a function of the SET of leftover combos only (a pocket combo is met under both suit orders)
+                have = set(keys)
+                want_seq = []
+                for r1 in range(13):
+                    for r2 in range(r1, 13):
+                        for s1 in range(4):
+                            for s2 in range(4):
+                                a_, b_ = (r1, s1), (r2, s2)
+                                if a_ == b_:
+                                    continue
+                                lo_, hi_ = (a_, b_) if a_ < b_ else (b_, a_)
+                                k_ = (lo_[0], lo_[1], hi_[0], hi_[1])
+                                if k_ in have:
+                                    want_seq.append(k_)
+                if keys != want_seq:
                     note('order', 'order:leftovers', P['pc'], txt)
                 # (b) maximal runs, right token kind, every complete position covered
                 covered = set(flat)
